@@ -96,7 +96,7 @@ def _setup():
 
 def _make_record(ident, name, index=0):
     from antismash.common.secmet.test.helpers import DummyCDS, DummyRecord  # pylint: disable=import-outside-toplevel
-    record = DummyRecord(seq="ACGTACGTACGT", record_id=ident, features=[DummyCDS(0, 9, locus_tag="gene")])
+    record = DummyRecord(seq="ACGTACGTACGT", record_id=ident, features=[DummyCDS(0, 9, locus_tag="gene", translation="MAA")])
     record.name = name
     record.record_index = index
     return record
@@ -111,9 +111,35 @@ def _observe_ids(case):
     from antismash.common import record_processing  # pylint: disable=import-outside-toplevel
     state["config"].update_config({"allow_long_headers": bool(case["allow"])})
     records = [_make_record(dec(item["id"]), dec(item["name"])) for item in case["in"]]
+    # every third case only the first record is analysed, the others are skipped by the record limit
+    limit = 1 if sum(len(item["id"]) for item in case["in"]) % 3 == 0 else -1
+    state["config"].update_config({"limit": limit})
     event = dict(case)
-    event["res"] = P.result(lambda: record_processing.pre_process_sequences(records, state["options"], state["genefinding"]),
-                            [], lambda out: [_project_record(rec) for rec in out])
+    kept = {}
+
+    def run():
+        kept["out"] = record_processing.pre_process_sequences(records, state["options"], state["genefinding"])
+        return kept["out"]
+    event["res"] = P.result(run, [], lambda out: [_project_record(rec) for rec in out])
+    state["config"].update_config({"limit": -1})
+
+    def through_results_file():
+        # what a later run reusing the results gets to see of these records
+        import os  # pylint: disable=import-outside-toplevel
+        import tempfile  # pylint: disable=import-outside-toplevel
+        from antismash.common import serialiser  # pylint: disable=import-outside-toplevel
+        out = kept["out"]
+        handle, path = tempfile.mkstemp(suffix=".json")
+        os.close(handle)
+        try:
+            serialiser.AntismashResults("in.gbk", out, [{} for _ in out], "verif").write_to_file(path)
+            return serialiser.AntismashResults.from_file(path).records
+        finally:
+            os.unlink(path)
+    if event["res"]["exc"]:
+        event["saved"] = {"exc": "", "v": []}
+    else:
+        event["saved"] = P.result(through_results_file, [], lambda out: [_project_record(rec) for rec in out])
     return event
 
 
